@@ -6,7 +6,10 @@ use crate::push::stack::PushStack;
 use crate::push::buffer::{PushBuffer, BufferType};
 use crate::push::io::{PushMessage};
 use crate::push::vector::{BoolVector, FloatVector, IntVector};
+#[cfg(not(feature = "verif"))]
 use std::collections::HashMap;
+#[cfg(feature = "verif")]
+use crate::push::verif_seam::DetMap as HashMap;
 use std::fmt;
 
 pub const BOOL_STACK_ID: i32 = 1;
